@@ -41,7 +41,7 @@ def candidates(rng, n):
     cands.append(enum(did, [variant("Exact", ser=["kb"], aci=0), variant("Any", ser=["Kb"]), variant("Tail", ser=["t"])], aci=True)); did += 1
     cands.append(enum(did, [variant("A", ser=["ab", "Ab"]), variant("B", ser=["AB"], aci=1), variant("C", ser=["aB"], aci=1)])); did += 1
     for k in range(n):
-        E = SC.sample_def(rng, did, nmax=5)
+        E = SC.sample_def(rng, did, nmax=5, phf=None, fieldless=(k % 3 == 0))
         cands.append(E)
         did += 1
     return cands
@@ -52,7 +52,7 @@ def run(tier, seed, rep):
     rng = random.Random(seed * 49979687 + 11)
     r = PC.run_parse_check(PROP, "c12", rep, candidates(rng, sz["sample"]), rng, seed, sz["cap"], sz["flips"],
                            lambda: model(tier), what="case-insensitive matching differs from the ASCII-only rule",
-                           in_domain=lambda f: f["wf"] and (f["no"] or f["pc"]))
+                           in_domain=lambda f: f["wf"] and (f["no"] or f["pc"]), features=("derive", "phf"))
     rep.cov["rule"] = ("definitions = 6 flag combinations (enum flag x variant flag absent/true/false) x %d spellings with ASCII and "
                        "non-ASCII letters, each next to case-sensitive variants, + styled identifiers + seeded samples; inputs = ALL "
                        "2^k case flips for k <= %d letters (sampled above), every Unicode look-alike substitution (KELVIN SIGN, LONG S, "
